@@ -3,9 +3,10 @@ import os, re, subprocess
 import nvlib
 import gen_image as G
 import fileio_spec as S
+from props import elf_mut
 
 ID = "C03"
-LEAN_MODULES = ["NakenVerif.Props.C03"]
+LEAN_MODULES = ["NakenVerif.Props.C03", "NakenVerif.Props.C03Elf", "NakenVerif.Props.C03Load"]
 THEOREMS = [
     "NakenVerif.C03.hex_roundtrip",
     "NakenVerif.C03.hex_record_roundtrip",
@@ -24,6 +25,18 @@ THEOREMS = [
     "NakenVerif.C03.bin_roundtrip",
     "NakenVerif.C03.filled_frame",
     "NakenVerif.C03.bin_read_write",
+    "NakenVerif.C03.elf_write_decode",
+    "NakenVerif.C03.elf_header_fields",
+    "NakenVerif.C03.elf_load_segment",
+    "NakenVerif.C03.elf_read_write",
+    "NakenVerif.C03.elf_machine_roundtrip",
+    "NakenVerif.C03.uf2_read_refines_spec",
+    "NakenVerif.C03.uf2_read_write",
+    "NakenVerif.C03.ti_txt_read_encode",
+    "NakenVerif.C03.ti_txt_low_high",
+    "NakenVerif.C03.amiga_roundtrip",
+    "NakenVerif.FileIO.ElfProofs.decode_write",
+    "NakenVerif.FileIO.ElfReadProofs.read_write",
     "NakenVerif.FileIO.chunks_flat",
     "NakenVerif.FileIO.chunks_good",
     "NakenVerif.FileIO.SrecSpec.parseRecord_recLine",
@@ -33,7 +46,10 @@ RULE = ("images: 1..6 disjoint segments x gaps (1..4096, 64 KiB-sized) x lengths
         "long runs) x address classes (0, <2^16, across 64 KiB boundaries, <2^24, across 2^24, >2^24, across 2^31, "
         "just below 2^32, ending at a page end) x data styles (random, 00, ff, format characters, checksum-boundary sums) "
         "x one CPU per (endianness, bytes per address, srec size, alignment) class of cpu_list plus the CPUs special-cased "
-        "by the ELF/Mach-O writers x entry point (none / inside / >0xffff) x exported symbols, for all 8 output types.  "
+        "by the ELF/Mach-O writers x entry point (none / inside / >0xffff) x exported symbols, for all 8 output types; ELF in addition: "
+        "every CPU of cpu_list (both byte orders for the special-cased and ELF64 ones), 1500 symbols (two symbol pools), names of "
+        "1..254 characters, the empty Memory; loaders: the written files plus field-aware ELF mutants, block-aware UF2 mutants, "
+        "text mutants of TI-TXT / HEX / S-record files.  "
         "A case is non-trivial when the image has >= 2 segments or crosses a 64 KiB boundary or lies above 2^16; "
         "distinct = distinct (format, cells, entry, cpu).")
 MODELLED = ("write_hex.cpp (write_hex, write_hex_line: 16-byte buffer, flush at 64 KiB boundaries, extended linear address records, "
@@ -41,12 +57,20 @@ MODELLED = ("write_hex.cpp (write_hex, write_hex_line: 16-byte buffer, flush at 
             "the S2->S3 switch above 0xffffff, write_srec_header with the time stamp as a parameter, S9/S8/S7 termination record), "
             "write_bin.cpp, read_bin.cpp, write_wdc.cpp (65536-byte block buffer), read_wdc.cpp, write_uf2.cpp (0xEF block, 256-byte "
             "payload blocks, padding), read_hex.cpp and read_srec.cpp (character-level state machines incl. get_hex error values, "
-            "int wrap-around, int64 start/end)")
-NOT_MODELLED = ("write_elf / write_amiga / write_macho and read_elf / read_uf2 / read_amiga / read_macho / read_ti_txt have no Lean "
+            "int wrap-around, int64 start/end), write_elf.cpp (ELF32/ELF64 by CPU, EI_DATA by Memory::endian, the e_machine / e_flags / "
+            "EI_OSABI / e_type switch, program header + padding to 4096 for images with an entry point, .text = [low, high], "
+            "alignment padding, .ARM.attributes, the string table functions, .shstrtab / .strtab / .symtab / .comment, the "
+            "section header table, the seek-back patch of e_shoff / e_shnum / e_shstrndx; symbols in Symbols::iterate order), "
+            "read_elf.cpp (FileIo get_int16/32/64 incl. EOF = -1 and the uint32_t accumulator of get_int64_be, fseek failing on "
+            "a negative offset, get_string_at_offset with char name[256], the .strtab search, the section loop with the "
+            "EOF-bounded load and symbol loops, low/high arithmetic in 64 bits, the e_machine switch), read_uf2.cpp (read_block, magic "
+            "numbers, the not-main-flash flag, the byte_count bound of e60359f, int address), read_ti_txt.cpp (the character state "
+            "machine: @ / q / hex digits / blanks / CR, uint32_t value and address, start / end), write_amiga.cpp")
+NOT_MODELLED = ("write_macho and read_amiga / read_macho have no Lean "
                 "model: they are covered by the specification decoders of tools/fileio_spec.py applied to the real writers' output, "
-                "by the real write->read round trip (TI-TXT: Python encoder -> read_ti_txt) and by process-level runs only "
-                "(differential + oracle level, not proof).  ELF section placement and symbol table are checked by the Python ELF32/64 "
-                "decoder only.  Mach-O is generated for the CPU's default byte order only.  The WDC model's 64 KiB run is compared "
+                "by the real write->read round trip and by process-level runs only "
+                "(differential + oracle level, not proof).  read_elf: fseek() to an offset above 2^40 (file-system dependent: ext4 "
+                "answers EINVAL above 16 TiB) is outside the model; the mutation stream avoids such files.  Mach-O is generated for the CPU's default byte order only.  The WDC model's 64 KiB run is compared "
                 "with the code in the thorough tier only (the model's buffer append is quadratic).")
 ASSUMPTIONS = ["a cell whose debug marker is DL_EMPTY holds byte 0 (true for everything written through memory_write_inc / "
                "Memory::write; the two-argument AsmContext::memory_write used by asm/f100_l.cpp stores data without a marker, "
@@ -59,7 +83,7 @@ TRUSTED_BASE = ["tools/fileio_spec.py (independent Python decoders for the eight
 FORMATS = ["hex", "srec", "bin", "wdc", "uf2", "elf", "amiga", "macho"]
 FILLER = {"bin", "elf", "uf2", "amiga", "macho"}        # formats that describe one contiguous range
 EXT = {"hex": "hex", "srec": "srec", "bin": "bin", "wdc": "wdc", "uf2": "uf2", "elf": "elf", "amiga": "out", "macho": "macho"}
-MODEL_WR = {"hex", "srec", "bin", "wdc", "uf2"}                       # formats whose writer is modelled in Lean (extended below)
+MODEL_WR = {"hex", "srec", "bin", "wdc", "uf2", "elf", "amiga"}                # formats whose writer is modelled in Lean
 
 
 def cpus_of(ctx):
@@ -124,6 +148,23 @@ def gen_cases(ctx):
             if hi_ - lo_ >= (1 << 22) and fmt in FILLER:
                 continue          # those files are as large as the span
             cases.append((fmt, img))
+    # ELF: every CPU of cpu_list once (the e_machine / e_flags / EI_CLASS / EI_OSABI switch of write_elf_header), in both byte
+    # orders for the ELF64 and the special-cased CPUs; many symbols (more than one 32 KiB symbol pool), long names, no symbols
+    for k, info in enumerate(ctx.notes["cpus_all"]):
+        d = G.data_bytes(rng, rng.choice([1, 2, 3, 4, 5, 7, 8, 9, 33]))
+        seg = [(rng.choice([0, 0x100, 0xfffe, 0x12345, 0x7ffffffd, 0x80000000, 0xffffffff - len(d) - k % 3]), d)]      # high <= 0xfffffffe
+        ends = ["b", "l"] if info["name"] in ("arm", "arm64", "riscv", "riscv64", "ebpf", "mips", "powerpc", "cell", "ps2_ee", "avr8", "msp430") else [rng.choice([None, "b", "l"])]
+        for e in ends:
+            img = H(seg, cpu=info["name"], endian=e, entry=rng.choice([None, seg[0][0], 0, 0xfffffffe]),
+                    syms=[("s%d" % j, rng.randrange(1 << 32), rng.random() < 0.7) for j in range(rng.choice([0, 1, 2, 5]))])
+            img["klass"] = "elf-cpu"
+            cases.append(("elf", img))
+    many = [("sym_%04d_%s" % (j, "x" * (j % 23)), (j * 0x01010101) & 0xffffffff, j % 3 != 0) for j in range(ctx.scale(1500, 4000))]
+    longn = [("L" * n, 0x1000 + n, True) for n in (1, 2, 126, 127, 128, 129, 200, 253, 254)]
+    for cpu, e, sy in (("arm", "b", many), ("riscv64", None, many), ("msp430", None, longn), ("arm64", "b", longn), ("ebpf", "l", longn)):
+        img = H([(0x8000, G.data_bytes(rng, 37))], cpu=cpu, endian=e, entry=0x8000, syms=sy)
+        img["klass"] = "elf-syms"
+        cases.append(("elf", img))
     # one long contiguous run (> 64 KiB) : the 65536-byte block buffer of the WDC writer, 4096 hex records
     long_img = H([(0x1fff0, G.data_bytes(rng, 65536 + 40, "rand"))], cpu="65816")
     for fmt in ("wdc", "hex", "srec"):
@@ -430,8 +471,11 @@ def correspondence(ctx, corr):
     sel = [i for i, (fmt, img) in enumerate(cases) if fmt in MODEL_WR and G.low_high(img)[1] - G.low_high(img)[0] < MODEL_SPAN
            # the WDC model appends to its block buffer with `buf ++ [b]` (quadratic): the 64 KiB run costs ~18 s, thorough only
            and not (ctx.quick() and fmt == "wdc" and max(len(d) for _, d in img["segs"]) > 20000)]
-    wl = corpus + [lines[i] for i in sel]
-    wi = nvlib.run_lines(ctx.harness, corpus, timeout=120) + [impl[i] for i in sel]
+    # the empty Memory (low = 0xffffffff, high = 0): ELF is the one writer with arithmetic on high - low + 1 outside a loop
+    extras = ["wr elf %s %s - %s %s" % (c, e, en, sy) for c, e, en, sy in (("msp430", "-", "-", "-"), ("arm", "b", "-", "a=1!,b=2"),
+              ("riscv64", "-", "100", "main=100!"), ("ps2_ee", "-", "0", "-"), ("avr8", "l", "-", "x=ffffffff!"))]
+    wl = corpus + extras + [lines[i] for i in sel]
+    wi = nvlib.run_lines(ctx.harness, corpus + extras, timeout=120) + [impl[i] for i in sel]
     wm = nvlib.run_lines(exe, wl, env=dict(os.environ), timeout=600)
     kinds = {}
     for l, a, b in zip(wl, wi, wm):
@@ -467,8 +511,8 @@ def correspondence(ctx, corr):
         low = G.low_high(img)[0]
         extra = " %x" % low if fmt == "bin" else ""
         rl.append("rd %s %s %s%s" % (fmt, EXT[fmt], nvlib.hexs(data), extra))
-        if fmt == "uf2":
-            rl.pop()          # read_uf2 is not modelled
+        if fmt in ("uf2", "elf", "amiga"):
+            rl.pop()          # read_uf2 / read_elf: own streams below; read_amiga is not modelled
             continue
         if fmt == "wdc":
             for _ in range(2):      # truncations and header damage
@@ -521,6 +565,122 @@ def correspondence(ctx, corr):
         if a != b:
             corr["disagreements"].append({"line": l[:3000], "impl": a[:3000], "model": b[:3000]})
     corr["streams"]["rd"] = {"lines": len(rl), "by_format_and_status": rk}
+    # --- read_elf: the real files and field-aware mutants (header, section header table, symbol table, truncation);
+    # elf_mut avoids the one thing outside the model: fseek() to offsets above 2^40 (file-system dependent)
+    el = []
+    for i in sel:
+        fmt, img = cases[i]
+        if fmt != "elf":
+            continue
+        w = G.parse_wr(impl[i])
+        if w is None or len(w["file"]) > 70000:
+            continue
+        el.append("rd elf elf %s" % nvlib.hexs(w["file"]))
+        if len(w["file"]) < 20000:
+            for m in elf_mut.mutants(rng, w["file"], 2):
+                el.append("rd elf elf %s" % nvlib.hexs(m))
+    em = nvlib.run_lines(exe, el, env=dict(os.environ), timeout=600)
+    keep = list(range(len(el)))
+    ei = nvlib.run_lines(ctx.harness, el, timeout=120)
+    ek = {}
+    for k, a in zip(keep, ei):
+        corr["cases"] += 1
+        st = a.split(" ")[0]
+        ek[st] = ek.get(st, 0) + 1
+        if a != em[k]:
+            corr["disagreements"].append({"line": el[k][:3000], "impl": a[:3000], "model": em[k][:3000]})
+    corr["streams"]["rd-elf"] = {"lines": len(el), "by_status": ek}
+    rl = rl + [el[k] for k in keep]
+    # --- read_uf2: the real files and block-aware mutants (flags, byte_count incl. 476/477, magics, address wrap, truncation)
+    ul = []
+    for i in sel:
+        fmt, img = cases[i]
+        if fmt != "uf2":
+            continue
+        w = G.parse_wr(impl[i])
+        if w is None or len(w["file"]) > 70000:
+            continue
+        data = w["file"]
+        ul.append("rd uf2 uf2 %s" % nvlib.hexs(data))
+        nblk = len(data) // 512
+        for _ in range(3):
+            b = bytearray(data)
+            k = rng.randrange(8)
+            blk = rng.randrange(max(1, nblk)) * 512
+            if k == 0:
+                b = b[:rng.randrange(len(b) + 1)]
+            elif k == 1 and nblk:
+                b[blk + 8] ^= rng.choice([1, 1, 2, 0x20])                 # flags (bit 0: not main flash)
+            elif k == 2 and nblk:
+                b[blk + 16:blk + 20] = rng.choice([0, 1, 255, 256, 257, 475, 476, 477, 512, 0xffffffff]).to_bytes(4, "little")
+            elif k == 3 and nblk:
+                b[blk + rng.choice([0, 1, 4, 7, 508, 511])] ^= rng.choice([1, 0x80])       # a magic number
+            elif k == 4 and nblk:
+                b[blk + 12:blk + 16] = rng.choice([0, 0xffffff80, 0xffffffff, 0x7fffffff, 0x80000000]).to_bytes(4, "little")
+            elif k == 5:
+                b += bytes(rng.randrange(256) for _ in range(rng.choice([1, 4, 32, 100, 511])))
+            elif k == 6 and nblk:
+                del b[blk:blk + 512]
+            else:
+                b = b + b[:512]
+            ul.append("rd uf2 uf2 %s" % nvlib.hexs(bytes(b)))
+    ul += ["rd uf2 uf2 " + nvlib.hexs(x) for x in (b"", b"UF2\n", b"UF2\nWQ]\x9e" + bytes(24))]
+    ui = nvlib.run_lines(ctx.harness, ul, timeout=120)
+    um = nvlib.run_lines(exe, ul, env=dict(os.environ), timeout=600)
+    uk = {}
+    for l, a, b in zip(ul, ui, um):
+        corr["cases"] += 1
+        st = a.split(" ")[0]
+        uk[st] = uk.get(st, 0) + 1
+        if a != b:
+            corr["disagreements"].append({"line": l[:3000], "impl": a[:3000], "model": b[:3000]})
+    corr["streams"]["rd-uf2"] = {"lines": len(ul), "by_status": uk}
+    # --- read_ti_txt: TI-TXT files encoded from the images (tools/fileio_spec.py, SLAU101) and text mutants
+    tl = []
+    timgs = [img for f, img in cases if f == "hex" and img["klass"] != "wide"][:ctx.scale(60, 600)]
+    for img in timgs:
+        data = S.encode_ti_txt(expected_cells(img))
+        if len(data) > 60000:
+            continue
+        tl.append("rd ti_txt txt %s" % nvlib.hexs(data))
+        for _ in range(2):
+            b = bytearray(data)
+            k = rng.randrange(10)
+            pos = rng.randrange(len(b))
+            if k == 0:
+                b = bytearray(bytes(b).lower())
+            elif k == 1:
+                b = bytearray(bytes(b).replace(b"\n", b"\r\n"))
+            elif k == 2:
+                b = b[:pos]
+            elif k == 3:
+                b = b[:pos] + rng.choice([b" ", b"\n", b"  \n\n", b"\r", b"q", b"@", b"g", b"\t", b"0", b"F", b"@1", b"x"]) + b[pos:]
+            elif k == 4:
+                b = bytearray(bytes(b).replace(b"q\n", b""))
+            elif k == 5:
+                b = bytearray(b"@%X\n" % rng.choice([0, 1, 0xfffe, 0x12345, 0xfffffffe, 0xffffffff, 0x100000000, 0x123456789])) + b"AA BB \n" + b
+            elif k == 6:
+                del b[pos:pos + rng.randrange(1, 4)]
+            elif k == 7:
+                b[pos] = rng.choice(b"0123456789ABCDEFabcdefq@ \n\rxyzG:")
+            elif k == 8:
+                b = bytearray(bytes(b).replace(b" ", b"  ", 3))
+            else:
+                b = b + b"@FFFF\n12 345 6\nq"
+            tl.append("rd ti_txt txt %s" % nvlib.hexs(bytes(b)))
+    tl += ["rd ti_txt txt " + nvlib.hexs(x) for x in (b"", b"q", b"@", b"@10", b"@10\n1", b"@10\nAB", b"@10\nAB\nq\n", b"12 34", b"@ffffffff\n01 02 03\nq\n",
+                                                        b"@1\n@2\n55\nq", b"\n\n\n@8000\n\n01\n", b"@8000 01 02q03", b"@80 00\n", b"@8000\n1 2 3 100 1ff\nq\n")]
+    ti = nvlib.run_lines(ctx.harness, tl, timeout=120)
+    tm = nvlib.run_lines(exe, tl, env=dict(os.environ), timeout=600)
+    tk = {}
+    for l, a, b in zip(tl, ti, tm):
+        corr["cases"] += 1
+        st = a.split(" ")[0]
+        tk[st] = tk.get(st, 0) + 1
+        if a != b:
+            corr["disagreements"].append({"line": l[:3000], "impl": a[:3000], "model": b[:3000]})
+    corr["streams"]["rd-ti_txt"] = {"lines": len(tl), "by_status": tk}
+    rl = rl + ul + tl
     corr["distinct_nontrivial"] = len(set(l for l in wl if ";" in l)) + len(set(rl))
     corr["samples"] = [{"line": wl[i][:200], "impl": wi[i][:200], "model": wm[i][:200]} for i in range(0, len(wl), max(1, len(wl) // 4))][:4]
 
